@@ -5,13 +5,14 @@ WT="$1"; ID="$2"
 export GOFLAGS=-mod=mod GOPROXY=off
 for d in "$WT"/OUT/*/; do
   n=$(basename "$d"); [ -f "$d/patch.diff" ] || continue
-  cd "$WT"; git checkout -q -- .
+  cd "$WT"; git checkout -q -- .; git clean -qfd -e OUT -e PROPERTY.json -e TASK.md
+  [ -n "$ONLY" ] && [ "$ONLY" != "$n" ] && continue
   mv OUT /tmp/OUT.$$.b
   ok=1
   git apply /tmp/OUT.$$.b/$n/patch.diff 2>/dev/null || ok=0
   if [ $ok = 1 ]; then go build ./... >/dev/null 2>&1 || ok=0; fi
   if [ $ok = 1 ]; then go test -vet=off -count=1 ./... >/dev/null 2>&1 || ok=0; fi
-  git checkout -q -- .; mv /tmp/OUT.$$.b OUT
+  git checkout -q -- .; git clean -qfd -e OUT -e PROPERTY.json -e TASK.md; mv /tmp/OUT.$$.b OUT
   if [ $ok = 1 ]; then
     k=1; while [ -d /verif/benign/$ID-$k ]; do k=$((k+1)); done
     mkdir -p /verif/benign/$ID-$k; cp "$d/patch.diff" "$d/meta.json" /verif/benign/$ID-$k/
